@@ -160,6 +160,10 @@ func (h *apiHarness) stop() {
 	if h.raft != nil {
 		h.raft.Shutdown().Error()
 		h.raft = nil
+		// raft's leader loop starts a goroutine that reads the oldest log entry every ten seconds (log store
+		// metrics); Shutdown does not wait for an iteration that has just begun, and closing the store under it is a
+		// nil dereference in goleveldb (seen once in a 60 s stress run). A real process exit takes it along.
+		time.Sleep(60 * time.Millisecond)
 	}
 	if h.logstore != nil {
 		h.logstore.Close()
